@@ -73,6 +73,47 @@ def run(m, rep, tier):
     d4 = rep.rule('D4', 'foreach: direction binds the right link, no access after the visit, stop value propagated', floor=3)
     check_foreach(m, d4)
 
+    d6 = rep.rule('D6', 'reverse links its two cursor nodes directly to each other only when they are known to be neighbours', floor=1)
+    f = m.ifn('cstl_dlist_reverse')
+    if f is None:
+        d6.undecided('cstl_dlist_reverse', 'not in the model')
+    else:
+        pv = Prover(f)
+
+        def cursor(ref):
+            i = f.get(ref) if isinstance(ref, str) else None
+            return i is not None and (i.op == 'phi' or (i.op == 'load' and resolve_addr(f, i.o[0]).root == '$0'))
+        bad = []
+        n = 0
+        for s in f.all_insts():
+            if s.op != 'store':
+                continue
+            a = resolve_addr(f, s.o[1])
+            v = s.o[0]
+            if a.fsteps[-1:] not in (((NODE, 'n'),), ((NODE, 'p'),)) or not cursor(a.root) or not cursor(v) or a.root == v:
+                continue
+            n += 1
+            # fact: a.root and v are neighbours (x->n == y or y->p == x, either way round)
+            ok = False
+            for (op, x, y) in pv.facts_at(s):
+                if op != 'eq':
+                    continue
+                for p_, q_ in ((x, y), (y, x)):
+                    pi = f.get(p_)
+                    if pi is not None and pi.op == 'load':
+                        ap = resolve_addr(f, pi.o[0])
+                        if ap.fsteps[-1:] in (((NODE, 'n'),), ((NODE, 'p'),)) and {ap.root, q_} == {a.root, v}:
+                            ok = True
+            if not ok:
+                bad.append('cursor nodes are linked directly to each other at %s without knowing they are adjacent: a node between them drops out of '
+                           'both chains while size still counts it' % s.loc())
+        if bad:
+            d6.violation('cstl_dlist_reverse', '; '.join(bad[:2]), floc(m, f), {})
+        elif n == 0:
+            d6.ok('cstl_dlist_reverse', 'no direct cursor-to-cursor link (general exchange only)', floc(m, f))
+        else:
+            d6.ok('cstl_dlist_reverse', '%d direct link(s), all under the adjacency test' % n, floc(m, f))
+
     d5 = rep.rule('D5', 'size adjusted exactly once per primitive; incrementing and decrementing primitives exist', floor=2)
     fns = [f for f in m.all_plain_functions() if (f.file or '').endswith(('dlist.c', 'dlist.h'))]
     adj = [f for f in fns if listrules.count_once(m, f, d5, DL, 'size')]
